@@ -291,4 +291,25 @@ PROPS = {
                      "acyclic values nested deeper than the goroutine stack allows (about a million levels) overflow the stack in Marshal as "
                      "they do in encoding/json: recorded as known finding json-marshal-deep-acyclic"],
     ),
+    "C09": dict(
+        lean_modules=["Enc.Props.C09"],
+        variants=[{"name": "default", "tags": "verif"}, {"name": "race", "tags": "verif", "race": True, "aux": True}],
+        areas=["json.cache", "json.cacheLoad", "json.cacheStore", "json.constructCachedCodec", "json.Append", "json.Parse", "json.encoderBufferPool",
+               "json.mapslicePool", "json.stackPool", "json.constructStructType", "proto.cachedCodecOf", "proto.loadCachedCodec", "proto.storeCachedCodec",
+               "proto.TypeOf", "proto.structCodecOf", "proto.codecOf", "thrift.Encoder", "thrift.Decoder", "thrift.encodeFuncOf", "thrift.decodeFuncOf",
+               "json.verifYield", "proto.verifYield", "thrift.verifYield"],
+        allowed_native=[],
+        main_theorem="Enc.Props.C09.every_call_uses_its_codec, published_cache_good (copy-on-write cache protocol: for every interleaving every call uses the codec it would build alone)",
+        rule="(a) deterministic interleavings through the `verif` yield hooks: 1..6 calls over 1..4 never-seen struct types (nested struct, "
+             "pointer, slice, map, interface fields) on the json, proto, thrift-encoder and thrift-decoder caches, random orders of "
+             "{run to just before publishing, publish}: every result equals the sequential one; the set of types left in the published "
+             "cache equals the Lean model's prediction for that schedule (lost updates included); (b) race-detector child processes: "
+             "4..32 goroutines x 40 calls each over 2..14 fresh types per package plus a shared recursive type, maps (pooled sort "
+             "scratch), tokenizer (pooled stacks), proto.TypeOf, at GOMAXPROCS 1, 2, 4, 16: no data race reported, digest of all "
+             "results equal to the digest of the same calls run one by one in another fresh process",
+        trusted_base=["the Go race detector (dynamic, schedule-dependent) is the oracle for data races", "goroutine ids are read from runtime.Stack"],
+        assumptions=["the protocol model is hand-written; its tie to the code is the schedule replay (cache membership) and the anchors on the cache functions",
+                     "sync.Pool exclusivity and proto.TypeOf's mutex are not modelled: only the race-detector stress covers them",
+                     "absence of data races is shown for the explored schedules only: the Go memory model is outside the Lean model"],
+    ),
 }
